@@ -145,20 +145,114 @@ def clauses(c, res):
             yield (f"C16-request-gate:{s}:{k}", f"cancel/replace gate: expected {want}")
 
 
+def object_cases():
+    """every public entry point of the order OBJECT that applies the transition function, from every status"""
+    from asyncfix.protocol.common import FExecType, FOrdStatus
+
+    for s in FOrdStatus:
+        for orig in (False, True):
+            for r in FOrdStatus:
+                for e in FExecType:
+                    yield (s.value, orig, "exec", e.value, r.value)
+                yield (s.value, orig, "cxlrej", "0", r.value)
+            for entry in ("cancel_req", "replace_req", "can_cancel", "can_replace", "is_finished"):
+                if orig and entry.endswith("_req"):
+                    continue        # a request while another is in flight is outside the builders' precondition (C17)
+                yield (s.value, orig, entry, "0", "0")
+
+
+def object_call(c):
+    """(status after, outcome) of one entry point on a fresh order object put into status s"""
+    from asyncfix import FIXMessage, FMsg
+    from asyncfix.errors import FIXError
+    from asyncfix.protocol.common import FOrdStatus
+    from asyncfix.protocol.order_single import FIXNewOrderSingle
+
+    s, orig, entry, e, r = c
+    o = FIXNewOrderSingle("root", "TICK", "1", 10.0, 5.0)
+    o.status = FOrdStatus(s)
+    if orig:
+        o.clord_id, o.orig_clord_id = "root--2", "root--1"
+    try:
+        if entry == "exec":
+            m = FIXMessage(FMsg.EXECUTIONREPORT, {11: o.clord_id, 14: "0", 39: r, 150: e, 151: "5", 37: "X1", 6: "0"})
+            out = o.process_execution_report(m)
+        elif entry == "cxlrej":
+            m = FIXMessage(FMsg.ORDERCANCELREJECT, {11: o.clord_id, 41: o.orig_clord_id or "root", 39: r, 37: "X1", 434: "1"})
+            out = o.process_cancel_rej_report(m)
+        elif entry == "cancel_req":
+            out = o.cancel_req() is not None
+        elif entry == "replace_req":
+            out = o.replace_req(price=11.0) is not None
+        else:
+            out = getattr(o, entry)()
+    except FIXError:
+        out = "FIXError"
+    except Exception as ex:  # noqa: BLE001
+        out = "exc:" + type(ex).__name__
+    st = o.status
+    return (str(st.value) if isinstance(st, FOrdStatus) else repr(st)), out
+
+
+def object_clauses(c, after, out):
+    from asyncfix import FMsg
+    from asyncfix.protocol.order_single import FIXNewOrderSingle
+
+    s, orig, entry, e, r = c
+    if isinstance(out, str) and out.startswith("exc:"):
+        yield (f"C16-object-foreign-exception:{entry}:{out[4:]}", "an entry point of the order object raised something other than the order error")
+        return
+    if s in FINISHED and after != s:
+        yield (f"C16-object-finished-left:{entry}", f"finished status {s} left through {entry} (now {after})")
+    if after == "Z" and s != "Z":
+        yield (f"C16-object-back-to-created:{entry}", f"{entry} moved the order back to CREATED from {s}")
+    kind = {"exec": FMsg.EXECUTIONREPORT, "cxlrej": FMsg.ORDERCANCELREJECT, "cancel_req": FMsg.ORDERCANCELREQUEST,
+            "replace_req": FMsg.ORDERCANCELREPLACEREQUEST}.get(entry)
+    if kind is None:
+        if after != s:
+            yield (f"C16-object-query-changes-status:{entry}", f"{entry}() changed the status {s} -> {after}")
+        return
+    if entry in ("exec", "cxlrej"):
+        rep, ex = r, (e if entry == "exec" else 0)
+    else:
+        rep, ex = ("6" if entry == "cancel_req" else "E"), 0
+    try:
+        t = FIXNewOrderSingle.change_status(s, kind, ex, rep, raise_on_err=False)
+    except Exception:  # noqa: BLE001
+        return
+    want = s if t is None else mstr(t, 0)
+    if out == "FIXError":
+        want = s
+    if after != want:
+        yield (f"C16-object-status-differs-from-transition:{entry}", f"from {s} via {entry}({e},{r}): transition function gives {want}, object is {after}")
+
+
 def oracle(ctx, disagreements, broken):
     failures, n = [], 0
+    nobj = 0
+    for c in object_cases():
+        after, out = object_call(c)
+        nobj += 1
+        for sig, what in object_clauses(c, after, out):
+            failures.append({"signature": sig, "what": what, "input": ["object"] + list(c), "observed": [after, str(out)]})
     for c in cases():
         res = call_impl(*c)
         n += 1
         for sig, what in clauses(c, res):
             failures.append({"signature": sig, "what": what, "input": [mstr(x, 0) if not isinstance(x, bool) else x for x in c],
                              "observed": res})
-    ctx.oracle_stats = {"evaluations": n, "failures": len(failures), "exhaustive": True}
+    ctx.oracle_stats = {"evaluations": n, "object_level_calls": nobj, "failures": len(failures), "exhaustive": True}
     return failures
 
 
 def replay(ctx, rp):
     import enum
+    if rp["input"] and rp["input"][0] == "object":
+        c = tuple(rp["input"][1:])
+        after, out = object_call(c)
+        sigs = [sig for sig, _ in object_clauses(c, after, out)]
+        print("replay:", rp["input"], "->", after, out, sigs)
+        return rp["signature"] in sigs
     s, k, e, r, m = rp["input"]
     # model strings of non-string markers are mapped back
     def back(x):
